@@ -79,6 +79,11 @@ func (c16) Gen(rt *rapid.T, thorough bool) any {
 // configuration B: svc (sync) tags svc_* -> rB0 [INFO..) ; aud (async) tags aud_* -> rB1 ; no root
 func c16Config(which string, st Style, widthA int) *SysSpec {
 	sp := &SysSpec{Style: st, Props: map[string]string{"enableCaller": "false"}}
+	if which == "B" {
+		// the two configurations differ in a process-wide property: a rejected Refresh(B)
+		// must not switch caller lookup on under a live A (and the other way round)
+		sp.Props["enableCaller"] = "true"
+	}
 	switch which {
 	case "A":
 		sp.Apps = []AppSpec{{Name: "rA0", Type: "Rec"}, {Name: "rA1", Type: "Rec"}, {Name: "fA", Type: "File", FileDir: "/logs", FileName: "a.log", Width: widthA}, {Name: "cA", Type: "Console", Width: widthA}}
@@ -381,6 +386,22 @@ func (c16) Run(x *Exec, scn any) {
 				if !wantSet[sink] {
 					o.violate("misrouted", "C16/output-at-wrong-sink/"+op.Op+"/"+stateName(), "%s: %d record(s) appeared at %s, model routes to %v", desc, d, sink, want)
 					break
+				}
+			}
+			if op.Op == "log" && m.live != "" {
+				// the live configuration's properties must be the ones in force
+				wantCaller := m.live == "B"
+				for sink := range wantSet {
+					if !strings.HasPrefix(sink, "r") {
+						continue
+					}
+					items := getRec(sink).snapshot()
+					if len(items) == 0 || items[len(items)-1].Ev == nil {
+						continue
+					}
+					if got := items[len(items)-1].Ev.File != ""; got != wantCaller {
+						o.violate("property-disturbed", "C16/live-configuration-property-changed", "%s: configuration %s is live (enableCaller=%v) but the event carries file=%q", desc, m.live, wantCaller, items[len(items)-1].Ev.File)
+					}
 				}
 			}
 		case "regtag", "gethandle":
